@@ -56,6 +56,12 @@ func readIgnoreFile(fs billy.Filesystem, path []string, ignoreFile string) (ps [
 				ps = append(ps, ParsePattern(s, path))
 			}
 		}
+		// A read error ends the scan like the end of the file does. Patterns
+		// read so far are not the file's rules: report the failure instead of
+		// letting ignored files show up as untracked.
+		if err := scanner.Err(); err != nil {
+			return nil, err
+		}
 	} else if !os.IsNotExist(err) {
 		return nil, err
 	}
